@@ -758,6 +758,52 @@ pub fn probe_bucket<'b, 'tx>(
         }
     }
 
+    if cfg.scan && cfg.reuse >= 3 && model_all.len() <= 64 {
+        // nth / skip / step_by (all built on `nth`, which a library may override) on cursors that
+        // have already yielded m entries: the same as that many calls of next()
+        let n = model_all.len();
+        let r = guarded(|| {
+            let mut bad: Vec<String> = vec![];
+            let mut calls = 0u64;
+            for m in 0..=n.min(12) {
+                for k in 0..=(n - m + 1).min(14) {
+                    let mut c = b.cursor();
+                    for _ in 0..m {
+                        let _ = c.next();
+                    }
+                    let got = c.nth(k).map(|d| data_to_pair(&d).0);
+                    let then = c.next().map(|d| data_to_pair(&d).0);
+                    calls += 2;
+                    let want = model_all.get(m + k).map(|p| p.0.clone());
+                    let want_then = if want.is_some() { model_all.get(m + k + 1).map(|p| p.0.clone()) } else { None };
+                    if (got != want || then != want_then) && bad.len() < 3 {
+                        bad.push(format!("after {} entries, nth({}) gives {:?} and the following next() {:?}; expected {:?} and {:?}", m, k, got.as_ref().map(|x| show(x)), then.as_ref().map(|x| show(x)), want.as_ref().map(|x| show(x)), want_then.as_ref().map(|x| show(x))));
+                    }
+                }
+            }
+            for step in 1..=n.min(9) + 1 {
+                let got: Vec<Bytes> = b.cursor().step_by(step).map(|d| data_to_pair(&d).0).collect();
+                let want: Vec<Bytes> = model_all.iter().step_by(step).map(|p| p.0.clone()).collect();
+                let got_r: Vec<Bytes> = b.range::<std::ops::RangeFull>(..).skip(step).map(|d| data_to_pair(&d).0).collect();
+                let want_r: Vec<Bytes> = model_all.iter().skip(step).map(|p| p.0.clone()).collect();
+                calls += 2;
+                if (got != want || got_r != want_r) && bad.len() < 3 {
+                    bad.push(format!("cursor().step_by({}) yields {} entries (expected {}), range(..).skip({}) yields {} (expected {})", step, got.len(), want.len(), step, got_r.len(), want_r.len()));
+                }
+            }
+            (bad, calls)
+        });
+        match r {
+            Ok((bad, calls)) => {
+                stats.reads += calls;
+                for x in bad {
+                    push("iter_nth", x);
+                }
+            }
+            Err(p) => push("panic:iter_methods", p),
+        }
+    }
+
     if cfg.filters {
         stats.reads += 2;
         match guarded(|| b.buckets().map(|(n, sub)| (n.name().to_vec(), sub.next_int())).take(SCAN_CAP).collect::<Vec<_>>()) {
